@@ -1,6 +1,7 @@
 import Mouette.Model.Proto
 import Mouette.Model.Attr
 import Mouette.Model.AttrHandles
+import Mouette.Model.AttrMulti
 /-
 Protocol front-end for C05.
   request:  `<n0> <nops> op*`   with
@@ -105,8 +106,39 @@ def trace (dense : Bool) (n0 : Nat) (ops : List Op2) : String :=
     (s', acc.2 ++ [record acc.1.st o s'.st])) (init2 n0, [])
   " | ".intercalate out
 
+/-! round 3: `multi <n0> <K> <nops> (on <a> <op> | cont <op>)*` — several attributes on one container; record:
+`<obs>;<container size>;<len(attr 0)|->,<len(attr 1)|->,…` -/
+def opM : P OpM := fun ts =>
+  match ts with
+  | "on" :: r => (do let a ← nat; let o ← op; pure (OpM.on a o) : P OpM) r
+  | "cont" :: r => (do let o ← op; pure (OpM.cont o) : P OpM) r
+  | _ => none
+
+def recordM (before : StateM) (o : OpM) (obs : Obs) (after : StateM) : String :=
+  let k := match o with
+    | .on a _ => (match (before.sts[a]?.bind (·.attr)), (after.sts[a]?.bind (·.attr)) with
+        | some x, _ => x.k
+        | none, some x => x.k
+        | none, none => 1)
+    | .cont _ => 1
+  let size := match after.sts with | st :: _ => st.size | [] => 0
+  let lens := ",".intercalate (after.sts.map (fun st => match st.attr with | some a => toString (attrLen a) | none => "-"))
+  s!"{fmtObs k obs};{size};{lens}"
+
+def traceM (n0 K : Nat) (ops : List OpM) : String :=
+  let (_, out) := ops.foldl (fun (acc : StateM × List String) o =>
+    let (s', obs) := stepM acc.1 o
+    (s', acc.2 ++ [recordM acc.1 o obs s'])) (initM n0 K, [])
+  " | ".intercalate out
+
+def handleMulti (ts : List String) : Option String :=
+  (runP (do let n0 ← nat; let k ← nat; let ops ← listOf opM; pure (n0, k, ops)) ts).map (fun (n0, k, ops) => traceM n0 k ops)
+
 def handle (ts : List String) : Option String :=
-  (runP (do let n0 ← nat; let ops ← listOf op2; pure (n0, ops)) ts).map
-    (fun (n0, ops) => trace false n0 ops ++ " || " ++ trace true n0 ops)
+  match ts with
+  | "multi" :: r => handleMulti r
+  | _ =>
+    (runP (do let n0 ← nat; let ops ← listOf op2; pure (n0, ops)) ts).map
+      (fun (n0, ops) => trace false n0 ops ++ " || " ++ trace true n0 ops)
 
 end Mouette.DriveC05
